@@ -86,7 +86,13 @@ macro_rules! render_primitive {
 					if escape && matches!(position, Position::NextChildAfterText) {
 						buf.push_str("<!>")
 					}
-					_ = write!(buf, "{}", self);
+					if escape {
+						// a `char` can be `<` or `&`: escape it like any other text
+						let text = self.to_string();
+						buf.push_str(&html_escape::encode_text(&text));
+					} else {
+						_ = write!(buf, "{}", self);
+					}
 					*position = Position::NextChildAfterText;
 				}
 
